@@ -125,6 +125,8 @@ pub struct Trace {
 pub struct C12;
 
 const DEFAULT_PREC: u64 = 100;
+/// 2^i 5^j grid: 61 x 31 values x 4 precisions around the exact length x 7 modes
+const GRID: u64 = 61 * 31 * 4 * 7;
 
 fn budget(p: u64) -> u64 {
     // quadratic convergence from a relative error <= 0.66: ~log2(5.5 (p+2)) iterations, +2 to see the repeat
@@ -364,15 +366,34 @@ impl Property for C12 {
         "exploration"
     }
     fn runs(&self, tier: Tier) -> u64 {
-        match tier {
+        GRID + match tier {
             Tier::Quick => 60_000,
             Tier::Thorough => 6_000_000,
         }
     }
 
-    fn generate(&self, rng: &mut Rng, _tier: Tier, _run: u64) -> Trace {
+    fn generate(&self, rng: &mut Rng, _tier: Tier, run: u64) -> Trace {
+        if run < GRID {
+            // deterministic enumeration of the terminating reciprocals the property names:
+            // x = 2^i 5^j (all i <= 60, j <= 30) at one below, at, and one / two above their exact length, all 7 modes
+            let i = run % 61;
+            let j = (run / 61) % 31;
+            let pk = (run / (61 * 31)) % 4;
+            let mode = MODES[((run / (61 * 31 * 4)) % 7) as usize];
+            let int = pow2(i) * pow5(j);
+            let x = Dec::new(rng.chance(1, 2), &int.to_str_radix(10), rng.range(-30, 30));
+            let nd = exact_reciprocal(&x.to_ref()).map(|(_, nd)| nd).unwrap_or(1);
+            let prec = (nd as i64 - 1 + pk as i64).clamp(1, 150) as u64;
+            return Trace { x, prec, mode, via: Via::Ctx, env: EnvSel::All };
+        }
+        let via = if rng.chance(1, 5) { *rng.pick(&VIAS_DEFAULT) } else { Via::Ctx };
+        if via != Via::Ctx && rng.chance(1, 2) {
+            // the operator forms have shortcuts of their own (one, two, powers of ten ...): aim at them
+            let ints: [&str; 16] = ["1", "-1", "2", "-2", "10", "-10", "100", "-100", "5", "-5", "4", "-8", "25", "3", "-7", "1000"];
+            let x = Dec { int: rng.pick(&ints).to_string(), scale: rng.range(-6, 6) };
+            return Trace { x, prec: DEFAULT_PREC, mode: Mode::HalfEven, via, env: EnvSel::All };
+        }
         let (x, hint) = gen_x(rng);
-        let via = if rng.chance(1, 8) { *rng.pick(&VIAS_DEFAULT) } else { Via::Ctx };
         let prec = if via == Via::Ctx { gen_prec(rng, hint) } else { DEFAULT_PREC };
         let mode = if via == Via::Ctx { *rng.pick(&MODES) } else { Mode::HalfEven };
         Trace { x, prec, mode, via, env: EnvSel::All }
@@ -634,8 +655,8 @@ impl Property for C12 {
             "exp2_flush_subnormal",
         ]
     }
-    fn extra_evidence(&self, _agg: &crate::framework::Agg) -> Value {
-        Value::Null
+    fn exhaustive_note(&self, _tier: Tier) -> Option<String> {
+        Some("grid: every x = 2^i 5^j (i <= 60, j <= 30; random sign and power-of-ten scale) x precisions {L-1, L, L+1, L+2} around the exact length L of 1/x x all 7 modes is enumerated; per execution the admissible exp2 set is enumerated".into())
     }
 }
 
